@@ -22,8 +22,9 @@ RULE = (
     "extrapolation. Lexer regexes (work invisible to the profiler): adversarial literal prefixes of length n = 64..512 (runs of "
     "\\123, \\x41, \\\\, digits, hex digits, './e', unterminated quotes, quote runs, comment openers) timed best-of-5: fails "
     "only if t(2n) > 3.5 t(n) on two consecutive doublings with t > 20 ms, or a 300-character input takes > 1 s; work hidden from the call counter "
-    "in the parser (list copies, dict merges) is covered by CPU-time ratios at 3 200 vs 12 800 repetitions of 11 families (fails "
-    "only above 5.5x for 4x the input, confirmed by three re-measurements). Non-trivial: families whose unit contains a '('-type-name or a declarator "
+    "in the parser (list copies, dict merges, string concatenation) is measured in executed machine instructions of a fresh interpreter "
+    "under valgrind at k and 4k for 9 / 18 families (at most 8% of the work at 4k in excess of linear growth). Repetition families are "
+    "measured in line events at four doubling sizes (ratio and second-difference tests); no input is followed beyond 16x its allowance. Non-trivial: families whose unit contains a '('-type-name or a declarator "
     "look-ahead; distinct by construction (enumeration) / hash of the unit (Hypothesis)."
 )
 ASSUMPTIONS = [
@@ -41,6 +42,11 @@ E = [
     # the hole as LEFT operand (assignment targets, condition of ?:, comma, binary)
     ("(", ") = 1"), ("(", ") += 1"), ("*(", ") = 1"), ("", " ? 1 : 2"), ("", ", 1"), ("", " && 1"), ("", " < 1"), ("", " * 2"), ("&(", ")"), ("(", ")->m"),
 ]  # fmt: skip
+# tag bodies nested in members / declarations: (opening, closing) around 'int x;'
+TB = [
+    ("struct { ", " } a, b;"), ("struct { ", " } a;"), ("union { ", " } u, *v;"), ("struct { int m; ", " } a, b, c;"), ("struct { struct { ", " } p, q; } r, s;"),
+    ("struct { int h; union { ", " } w; } z[2], y;"), ("enum { K = sizeof(struct { ", " }) } e1, e2;"),
+]
 S = [
     ("{ ", " }"), ("if (1) ", ""), ("if (1) ; else ", ""), ("if (1) ", " else ;"), ("while (1) ", ""), ("for (;;) ", ""),
     ("for (int i = 0;;) ", ""), ("do ", " while (0);"), ("switch (1) ", ""), ("switch (1) { case 1: ", " }"), ("case 1: ", ""),
@@ -62,6 +68,8 @@ def build(kind, us, k):
         return "typedef int T; struct S { int m; int a[3]; }; int x = " + o + "1" + c + ";"
     if kind == "S":
         return "void f(void) { " + o + ";" + c + " }"
+    if kind == "T":
+        return o + "int x;" + c
     return "int " + o + "x" + c + ";"
 
 
@@ -133,17 +141,25 @@ def _in_pkg_prefix():
 _PKG = None
 
 
-def steps(src):
-    """(calls under the pycparser package, wall seconds, outcome)"""
+class _OverBudget(BaseException):
+    pass
+
+
+def steps(src, limit=None):
+    """(calls under the pycparser package, wall seconds, outcome); with a limit
+    the parse is abandoned once it has made that many calls (outcome 'budget')"""
     global _PKG
     if _PKG is None:
         _PKG = _in_pkg_prefix()
     cnt = [0]
     pkg = _PKG
+    lim = limit or 1 << 62
 
     def prof(frame, event, arg):
         if event == "call" and frame.f_code.co_filename.startswith(pkg):
             cnt[0] += 1
+            if cnt[0] > lim:
+                raise _OverBudget()
 
     p = c_parser.CParser()
     sys.setprofile(prof)
@@ -155,12 +171,14 @@ def steps(src):
         ok = "ParseError: " + str(e)[:80]
     except RecursionError:
         ok = "RecursionError"
+    except _OverBudget:
+        ok = "budget"
     finally:
         sys.setprofile(None)
     return cnt[0], time.thread_time() - t, ok
 
 
-def steps_lines(src):
+def steps_lines(src, limit=None):
     """(LINE events under the pycparser package, cpu seconds, outcome): unlike call
     counts this sees work done in loops that call nothing (walking a scope stack,
     scanning a buffer)"""
@@ -170,9 +188,13 @@ def steps_lines(src):
     cnt = [0]
     pkg = _PKG
 
+    lim = limit or 1 << 62
+
     def local(frame, event, arg):
         if event == "line":
             cnt[0] += 1
+            if cnt[0] > lim:
+                raise _OverBudget()
         return local
 
     def tracer(frame, event, arg):
@@ -190,6 +212,8 @@ def steps_lines(src):
         ok = "ParseError: " + str(e)[:80]
     except RecursionError:
         ok = "RecursionError"
+    except _OverBudget:
+        ok = "budget"
     finally:
         sys.settrace(None)
     return cnt[0], time.thread_time() - t, ok
@@ -228,8 +252,13 @@ def check_family(name, builder, ks, st, case, measure=None):
     measure = measure or steps
     for k in ks:
         src = builder(k)
-        n, t, ok = measure(src)
+        # no input of a family is followed beyond 16x the allowance for its size:
+        # exponential work is reported, not waited for
+        budget = None if prev is None else int(16 * (RATIO * prev[1] + SLACK) * max(1.0, float(k) / (2 * prev[0])))
+        n, t, ok = measure(src, budget)
         st.evaluations += 1
+        if ok == "budget":
+            fail("growth", case, builder(ks[0]), "family %s: work %s - at k=%d the parse was abandoned after %d events (16x what doubling allows; k=%d took %d)" % (name, series, k, n, prev[0], prev[1]), "superlinear")
         if ok is not True:
             if prev is None:
                 return False  # not a valid family: no claim
@@ -263,7 +292,7 @@ def nontrivial_units(us):
 def nest_shard(arg):
     kind, part, nparts, quick = arg
     st = Stats()
-    units = {"E": E, "S": S, "D": D}[kind]
+    units = {"E": E, "S": S, "D": D, "T": TB}[kind]
     combos = [(u,) for u in units] + list(itertools.permutations(units, 2))
     ks = (8, 16, 32) if not quick else (6, 12, 24)
 
@@ -536,7 +565,7 @@ def lex_shard(names):
 
 def run(ctx):
     nparts = 6
-    jobs = [(kind, p, nparts, ctx.quick) for kind in ("E", "S", "D") for p in range(nparts)]
+    jobs = [(kind, p, nparts, ctx.quick) for kind in ("E", "S", "D") for p in range(nparts)] + [("T", 0, 1, ctx.quick)]
     ctx.map(nest_shard, jobs)
     names = sorted(REPEAT)
     ctx.map(repeat_shard, [(names[i::6], ctx.quick) for i in range(6)])
